@@ -63,6 +63,12 @@ def w_parse(case):
             os.makedirs(os.path.dirname(p), exist_ok=True)
             with open(p, "w", newline="") as f:
                 f.write(text)
+        if case.get("primer"):
+            # an unrelated schema parsed first in the same process: nothing it declared or resolved may leak
+            try:
+                get_fcp_from_string(case["primer"], Logger({}))
+            except BaseException:
+                pass
         logger = Logger({})
         try:
             if case.get("from_string"):
@@ -609,7 +615,20 @@ def run_c08(rep, rng, tier):
                 holder["fields"].insert(rng.randint(0, len(holder["fields"])),
                                         {"name": "ref", "id": 77, "type": wrap(("named", bad_name)), "params": []})
         text = render(rng, desc_toks(rng, d), rng.choice(["canon", "wild"]))
-        jobs.append({"files": {"main.fcp": text}, "root": "main.fcp", "from_string": rng.random() < 0.5})
+        job = {"files": {"main.fcp": text}, "root": "main.fcp", "from_string": rng.random() < 0.5}
+        if rng.random() < 0.4:
+            # history: the same process first parses a schema in which the names of this case mean something else
+            # (the dangling name is a declared, used struct; every struct name is an enum and vice versa)
+            pr = ['version: "3"']
+            names = [(dc["k"], dc["name"]) for dc in d.decls if dc["k"] in ("struct", "enum")]
+            if bad_name and bad_name not in [n for _, n in names]:
+                names.append(("enum", bad_name))
+            for k, nme in names:
+                pr.append(f"enum {nme} {{ PA = 0, PB = 1, }}" if k == "struct" else f"struct {nme} {{ pz @ 0: u8, }}")
+            if names:
+                pr.append("struct PrimerUser {" + " ".join(f"pf{j} @ {j}: Optional[[{nme}, 2]]," for j, (_, nme) in enumerate(names)) + " }")
+            job["primer"] = "\n".join(pr) + "\n"
+        jobs.append(job)
         meta.append((kind if bad_name else "valid", bad_name, holder["name"] if holder else None))
     ires = run_cases("harness.frontend", "w_parse", jobs, timeout_s=60)
     mres = run_driver_parallel(model_cases(jobs))
@@ -617,6 +636,7 @@ def run_c08(rep, rng, tier):
         text = job["files"]["main.fcp"]
         rep.count(text)
         rep.hist("reference_kind", kind)
+        rep.hist("history", "after a primer schema with clashing names" if job.get("primer") else "fresh")
         rep.sample({"text": text, "kind": kind, "reference": bad}, limit=3)
         base = {"text": text, "kind": kind, "reference": bad, "holder": holder}
         if "ok" not in r:
